@@ -41,7 +41,7 @@ class ExprMixin(object):
         if ck in ('IntegralToFloating',):
             return to_real(self.scalar(v, n))
         if ck == 'FloatingToIntegral':
-            fail(n, 'floating to integral conversion')
+            return self.real_to_int(v, n)
         if ck == 'IntegralToBoolean':
             return self.scalar(v, n).ne(0)
         if ck == 'PointerToBoolean':
@@ -321,6 +321,10 @@ class ExprMixin(object):
             return (x & y) if op == '&&' else (x | y)
         x = self.ev(a)
         y = self.ev(b)
+        if op == '-' and 'unsigned' in n.get('type', {}).get('qualType', '') or (op == '-' and n.get('type', {}).get('qualType', '') in ('size_t', 'std::size_t', 'std::vector::size_type', 'unsigned long')):
+            xs, ys = self.rd(x), self.rd(y)
+            if isE(xs) and isE(ys) and xs.ty == INT and ys.ty == INT:
+                self.obligation(xs >= ys, 'no unsigned wrap-around in %s' % where(n), 'bounds')
         return self.binop(op, x, y, n)
 
     def truth(self, v, n):
@@ -531,6 +535,14 @@ class ExprMixin(object):
             self.assign(dst.size_lv(), src.size())
             return
         if isinstance(dst, PtrSlot):
+            if isinstance(src, Obj):
+                # `this` (or the address of a known object) stored in a pointer member
+                self.assign(dst.null_lv(), False)
+                tagv = getattr(src, 'identity_tag', None)
+                if tagv is not None:
+                    self.assign(dst.tag_lv(), tagv)
+                dst.target = src
+                return
             if isinstance(src, PtrSlot):
                 self.assign(dst.null_lv(), src.null())
                 self.assign(dst.tag_lv(), src.tag())
